@@ -20,7 +20,7 @@
 #include <time.h>
 
 #define MAXTP 16
-typedef struct { int used, n, kind, ct, cn, cc, cm, freed; volatile int registered; parsec_taskpool_t *tp; } tpspec_t;
+typedef struct { int used, n, kind, ct, cn, cc, cm, freed, parent; volatile int registered; parsec_taskpool_t *tp; } tpspec_t;
 static tpspec_t spec[MAXTP + 1];
 static parsec_context_t *parsec;
 static parsec_matrix_block_cyclic_t descA;
@@ -132,8 +132,8 @@ static int run_history(char *line)
             if( sscanf(tok, "%*s %d %d %c %d %d %d %d", &a[0], &a[1], &kind, &a[2], &a[3], &a[4], &a[5]) < 7 ) return -1;
             if( a[0] < 1 || a[0] > MAXTP || a[2] > MAXTP || a[4] > MAXTP ) return -1;
             spec[a[0]].used = 1; spec[a[0]].n = a[1]; spec[a[0]].kind = kind; spec[a[0]].ct = a[2]; spec[a[0]].cc = a[4];
-            if( a[2] ) { spec[a[2]].used = 1; spec[a[2]].n = a[3]; spec[a[2]].kind = 'p'; }
-            if( a[4] ) { spec[a[4]].used = 1; spec[a[4]].n = a[5]; spec[a[4]].kind = 'p'; }
+            if( a[2] ) { spec[a[2]].used = 1; spec[a[2]].n = a[3]; spec[a[2]].kind = 'p'; spec[a[2]].parent = a[0]; }
+            if( a[4] ) { spec[a[4]].used = 1; spec[a[4]].n = a[5]; spec[a[4]].kind = 'p'; spec[a[4]].parent = a[0]; }
             add_main(a[0]);
         } else if( !strcmp(op, "wait") ) {
             vt_ev("\"e\":\"WaitEnter\"");
@@ -144,9 +144,14 @@ static int run_history(char *line)
             free_done();
         } else if( !strcmp(op, "tpwait") ) {
             if( sscanf(tok, "%*s %d", &a[0]) < 1 || a[0] < 1 || a[0] > MAXTP || !spec[a[0]].used ) return -1;
-            /* a child taskpool is registered by a task / callback running on a worker: in the history the
-             * parsec_taskpool_wait comes after that registration */
-            while( !spec[a[0]].registered ) { struct timespec ts = { 0, 20000 }; nanosleep(&ts, NULL); }
+            /* a child taskpool is registered by a task / callback of its parent; in the history the
+             * parsec_taskpool_wait comes after that registration.  The task that registers it may be parked on the
+             * main thread (es->next_task): progress through parsec_taskpool_test on the parent until it happened. */
+            while( !spec[a[0]].registered ) {
+                int par = spec[a[0]].parent;
+                if( par > 0 && NULL != spec[par].tp && !spec[par].freed ) (void)parsec_taskpool_test(spec[par].tp);
+                else { struct timespec ts = { 0, 20000 }; nanosleep(&ts, NULL); }
+            }
             __sync_synchronize();
             vt_ev("\"e\":\"TpWaitEnter\",\"tp\":%d", a[0]);
             int rc = parsec_taskpool_wait(spec[a[0]].tp);
